@@ -24,6 +24,7 @@ import SSEPyVerif.Proofs.Schemes.Pi2Lev
 import SSEPyVerif.Proofs.Schemes.DP17
 import SSEPyVerif.Proofs.Schemes.ChainComplete
 import SSEPyVerif.Proofs.Schemes.CT14Complete
+import SSEPyVerif.Proofs.Schemes.PiPtrComplete
 namespace SSEPy.C01
 open SSEPy.Sch SSEPy.Sch.Chain
 
@@ -377,5 +378,16 @@ theorem ANSS16.setup_never_raises (raw : RawCfg) (cfg : ANSSCfg) (hcfg : ANSS16.
     (hkk : cfg.kPrime = cfg.k) (lv : Leaves) (hl : LeafLaws lv) (K : Bytes) (db : DB) (t : Tape) (hne : db ≠ [])
     (hlists : ∀ p ∈ db, 1 ≤ p.2.length) (e : Err) (h : ANSS16.setup cfg lv K db t = .error e) : e = .miss :=
   ANSS16.setup_onlyMiss cfg lv hl (ANSS16.cfgBuild_usable cfg raw hcfg hkk) K db t hne hlists e h
+
+/-- PiPtr: `EDBSetup` NEVER RAISES (accepted configuration with `prf_f_output_length = param_lambda`, key of `param_lambda`
+    bytes, ANY database, a recorded `random.sample` whose entries are below `|A|`, as a sample of `range(1, |A|)` is): the only
+    failure left in the model is `.miss`.  No IndexError from popping a free slot (the sample has exactly as many entries
+    as there are identifier blocks) or from writing the array, no OverflowError from the pointer width `⌈log2 |A| / 8⌉`. -/
+theorem PiPtr.setup_never_raises (raw : RawCfg) (cfg : PiPtrCfg) (hcfg : PiPtr.cfgBuild raw = .ok cfg)
+    (hout : getInt raw "prf_f_output_length" = getInt raw "param_lambda") (lv : Leaves) (hl : LeafLaws lv)
+    (K : Bytes) (hK : (K.length : Int) = cfg.lambda) (db : DB) (t : Tape)
+    (hsample : ∀ sample t0, takeNats t = .ok (sample, t0) → ∀ p ∈ sample, p < PiPtr.arrayLen cfg db)
+    (e : Err) (h : PiPtr.setup cfg lv K db t = .error e) : e = .miss :=
+  PiPtr.setup_onlyMiss cfg lv hl (PiPtr.cfgBuild_usable cfg raw hcfg hout) K hK db t hsample e h
 
 end SSEPy.C01
